@@ -47,6 +47,7 @@ func (l *zzLifeLn) Addr() net.Addr { return &net.TCPAddr{Port: 80} }
 type zzLifeServer struct {
 	tag        string
 	failListen bool
+	failPacket bool
 	stop       chan struct{}
 	stopOnce   sync.Once
 	ln         *zzLifeLn
@@ -71,7 +72,13 @@ func (s *zzLifeServer) Serve(ln net.Listener) error {
 	zzEvent("served@" + s.tag)
 	return errors.New("use of closed network connection")
 }
-func (s *zzLifeServer) ListenPacket() (net.PacketConn, error) { return nil, nil }
+func (s *zzLifeServer) ListenPacket() (net.PacketConn, error) {
+	if s.failPacket {
+		zzEvent("packetfail@" + s.tag)
+		return nil, errors.New("listen udp: address already in use")
+	}
+	return nil, nil
+}
 func (s *zzLifeServer) ServePacket(net.PacketConn) error      { return nil }
 func (s *zzLifeServer) Stop() error {
 	s.stopOnce.Do(func() {
@@ -96,7 +103,7 @@ func (c *zzLifeCtx) InspectServerBlocks(f string, b []casketfile.ServerBlock) ([
 }
 func (c *zzLifeCtx) MakeServers() ([]Server, error) {
 	s1 := &zzLifeServer{tag: c.tag + "1", stop: make(chan struct{})}
-	s2 := &zzLifeServer{tag: c.tag + "2", stop: make(chan struct{}), failListen: c.fault == "listen"}
+	s2 := &zzLifeServer{tag: c.tag + "2", stop: make(chan struct{}), failListen: c.fault == "listen", failPacket: c.fault == "listenpacket"}
 	return []Server{s1, s2}, nil
 }
 
@@ -201,8 +208,18 @@ func VerifH16Lifecycle() {
 	}
 	want := []string{"firststartup@A", "startup@A", "listen@A1", "listen@A2"}
 	curTag, curFault := "A", firstFault
+	live := []string{"A"} // tags of the live instances, in the order of the instance list
+	if verifrt.Bool("second-instance") {
+		// an independent second Start in the same process: it is an initial start of its own
+		if _, err := Start(zzInput("S", "")); err != nil {
+			verifrt.Fail("second-start")
+			return
+		}
+		want = append(want, "firststartup@S", "startup@S", "listen@S1", "listen@S2")
+		live = append(live, "S")
+	}
 	nops := verifrt.IntRange("nops", 0, 2)
-	faults := []string{"", "parse", "setup", "startup", "listen"}
+	faults := []string{"", "parse", "setup", "startup", "listen", "listenpacket"}
 	for op := 0; op < nops; op++ {
 		newTag := []string{"B", "C", "D"}[op]
 		fault := faults[verifrt.Choose("reload", len(faults))]
@@ -220,11 +237,20 @@ func VerifH16Lifecycle() {
 			want = append(want, "startup@"+newTag, "restartfailed@"+curTag)
 		case fault == "listen":
 			want = append(want, "startup@"+newTag, "listen@"+newTag+"1", "listenfail@"+newTag+"2", "restartfailed@"+curTag)
+		case fault == "listenpacket":
+			want = append(want, "startup@"+newTag, "listen@"+newTag+"1", "listen@"+newTag+"2", "packetfail@"+newTag+"2", "restartfailed@"+curTag)
 		default:
 			want = append(want, "startup@"+newTag, "listen@"+newTag+"1", "listen@"+newTag+"2", "stop@"+curTag+"1", "stop@"+curTag+"2", "shutdown@"+curTag)
 		}
 		if ok {
 			verifrt.Assert(rerr == nil && next != cur, "successful-reload-returns-new-instance")
+			var nl []string
+			for _, t := range live {
+				if t != curTag {
+					nl = append(nl, t)
+				}
+			}
+			live = append(nl, newTag)
 			cur, curTag, curFault = next, newTag, ""
 		} else {
 			verifrt.Assert(rerr != nil && next == cur, "failed-reload-keeps-old-instance")
@@ -256,10 +282,23 @@ func VerifH16Lifecycle() {
 			executeShutdownCallbacks("SIGTERM")
 		}
 	}
-	want = append(want, "shutdown@"+curTag, "finalshutdown@"+curTag)
+	for _, t := range live {
+		want = append(want, "shutdown@"+t, "finalshutdown@"+t)
+	}
 	Stop()
-	want = append(want, "stop@"+curTag+"1", "stop@"+curTag+"2")
+	for _, t := range live {
+		want = append(want, "stop@"+t+"1", "stop@"+t+"2")
+	}
 	cur.Wait() // returns only after every server of the lineage has stopped (a hang here is a deadlock)
+	if verifrt.Bool("start-again-after-stop") {
+		// everything has stopped; a further Start in the same process is again an initial start
+		if _, err := Start(zzInput("E", "")); err != nil {
+			verifrt.Fail("start-after-stop")
+			return
+		}
+		Stop()
+		want = append(want, "firststartup@E", "startup@E", "listen@E1", "listen@E2", "stop@E1", "stop@E2")
+	}
 	got := zzSyncEvents()
 	verifrt.Assert(len(got) == len(want), "callback-count")
 	for i := range want {
